@@ -32,15 +32,11 @@ class References:
 
   def _forget_item(self, line):
     """
-    Remove the back-reference to the group from a line which the group does
-    not list any more (and the line, if it was a placeholder for the group).
+    Remove one back-reference to the group from a line of which the group
+    lists one occurrence less (and the line, if it was a placeholder which
+    nothing refers to any more).
     """
     refkey = "paths" if (self.record_type == "O") else "sets"
-    for item in self.get("items"):
-      if isinstance(item, gfapy.OrientedLine):
-        item = item.line
-      if item is line:
-        return
     line._delete_reference(self, refkey)
     self._disconnect_unreferenced_placeholders([line])
 
